@@ -31,6 +31,8 @@ def check(ctx: Ctx) -> None:
     r2_parsers(ctx, "C07.R4")
     from .c05 import r1_noskip
     r1_noskip(ctx, "C07.R5")
+    from .c10 import r4 as c10_r4
+    c10_r4(ctx, "C07.R6")
 
 
 def _assigns(ctx: Ctx, f: FunctionInfo, h: ast.ExceptHandler, name: str, value: object) -> bool:
@@ -82,8 +84,8 @@ def conservative_table() -> Dict[Tuple[str, str], Tuple[str, Callable[[Ctx, Func
     }
 
 
-def r1(ctx: Ctx) -> None:
-    ctx.rule("C07.R1", "handler discipline in the collector: a handler guarding a storage read/list/stat raises "
+def r1(ctx: Ctx, rid: str = "C07.R1") -> None:
+    ctx.rule(rid, "handler discipline in the collector: a handler guarding a storage read/list/stat raises "
              "GarbageCollectionAborted or is a frozen conservative shape whose effect is verified", 7)
     table = conservative_table()
     gc = ctx.prog.cls(GC)
@@ -99,7 +101,7 @@ def r1(ctx: Ctx) -> None:
             aborts = bool(ex["raise"]) and not swallow and all(r.raised == ABORT for r in ex["raise"])
             role = f"except({','.join(handler_classes(h))}) guarding storage ops {ops or guarded_names(ctx, m, t)}"
             if aborts:
-                ctx.ob("C07.R1", m, role, hn, True, "aborts the collection (GarbageCollectionAborted) - nothing is deleted", text="")
+                ctx.ob(rid, m, role, hn, True, "aborts the collection (GarbageCollectionAborted) - nothing is deleted", text="")
                 continue
             cs = handler_classes(h)
             key: Optional[Tuple[str, str]] = None
@@ -111,14 +113,14 @@ def r1(ctx: Ctx) -> None:
                 key = (m.name, "parse")
             ent = table.get(key) if key else None
             if ent is None:
-                ctx.ob("C07.R1", m, role, hn, False,
+                ctx.ob(rid, m, role, hn, False,
                        "a storage failure is neither turned into GarbageCollectionAborted nor handled by a verified "
                        f"conservative shape (handler completes normally: {swallow}); deciding on incomplete knowledge "
                        "can delete live or in-flight files", text="")
                 continue
             reason, pred = ent
             ok = pred(ctx, m, h)
-            ctx.ob("C07.R1", m, role, hn, ok,
+            ctx.ob(rid, m, role, hn, ok,
                    (f"conservative shape: {reason}" if ok else f"expected conservative effect missing: {reason}"), text="")
         # a storage read outside any try whose failure would be silently defaulted is impossible; but a read whose
         # exception escapes is an abort as well (propagates out of collect) - nothing to check.
